@@ -9,7 +9,7 @@ from __future__ import annotations
 import ast
 
 from ..astutil import deref, body_always_raises, calls_in, dotted, enclosing_stmt, is_within, src, walk_local
-from ..cfg import cfg_of
+from ..cfg import cfg_of, deref_at
 from ..loader import AnalysisError
 from ..terms import Evaluator, alts, contains, find, show, walk
 from . import shared
@@ -32,6 +32,29 @@ ASSUMPTIONS = ['exceptions are not swallowed by context managers']
 
 def _false_nodes(cfg, ifn, polarity=False):
     return cfg.nodes_of(ifn, 'true' if polarity else 'false')
+
+
+def _unencrypted_edges(cfg, ifn):
+    """edge nodes of an `if` on which the repository is known to be unencrypted, whatever the spelling of the test
+    (`if enc:` -> false edge, `if not enc:` -> true edge, `enc or x` -> false edge, `not enc and x` -> true edge)"""
+    def lit(e):
+        neg = False
+        while isinstance(e, ast.UnaryOp) and isinstance(e.op, ast.Not):
+            e, neg = e.operand, not neg
+        return ('neg' if neg else 'pos') if isinstance(e, ast.Attribute) and e.attr == 'encrypted' else None
+
+    t = ifn.test
+    if lit(t) == 'pos':
+        return cfg.nodes_of(ifn, 'false')
+    if lit(t) == 'neg':
+        return cfg.nodes_of(ifn, 'true')
+    if isinstance(t, ast.BoolOp):
+        lits = [lit(v) for v in t.values]
+        if isinstance(t.op, ast.Or) and 'pos' in lits:
+            return cfg.nodes_of(ifn, 'false')
+        if isinstance(t.op, ast.And) and 'neg' in lits:
+            return cfg.nodes_of(ifn, 'true')
+    return []
 
 
 def r1_unlock(ctx):
@@ -153,9 +176,32 @@ def r3_readers(ctx):
                     if _is_data_not_none(i):
                         ok = True
     if not ok:
-        # loop idiom: `if x['data'] is None: continue`
-        for n in walk_local(fn.node):
-            if isinstance(n, ast.If) and _is_data_none(n.test) and any(isinstance(s, ast.Continue) for s in n.body):
+        # loop idiom: every statement of the loading loop that touches the loaded body sits behind the
+        # "body['data'] is not None" edge of a test on that body (`if .. is None: continue` / `if .. is not None: <use>`)
+        rcfg = cfg_of(fn.node)
+        for lp in walk_local(fn.node):
+            if not isinstance(lp, (ast.For, ast.AsyncFor)):
+                continue
+            it = deref_at(fn.node, lp.iter) if isinstance(lp.iter, ast.Name) else lp.iter
+            if not any(True for _ in self_calls(it, {'_load_snapshots'})):
+                continue
+            bvar = lp.target.elts[1].id if isinstance(lp.target, ast.Tuple) and len(lp.target.elts) == 2 and isinstance(lp.target.elts[1], ast.Name) else None
+            if bvar is None:
+                continue
+            good = []
+            guards_ = []
+            for i in walk_local(lp):
+                if isinstance(i, ast.If):
+                    t, neg = i.test, False
+                    while isinstance(t, ast.UnaryOp) and isinstance(t.op, ast.Not):
+                        t, neg = t.operand, not neg
+                    if isinstance(t, ast.Compare) and len(t.ops) == 1 and isinstance(t.comparators[0], ast.Constant) and t.comparators[0].value is None and isinstance(t.left, ast.Subscript) and isinstance(t.left.value, ast.Name) and t.left.value.id == bvar and isinstance(t.left.slice, ast.Constant) and t.left.slice.value == 'data':
+                        isnot = isinstance(t.ops[0], (ast.IsNot, ast.NotEq))
+                        if isinstance(t.ops[0], (ast.Is, ast.Eq, ast.IsNot, ast.NotEq)):
+                            good += rcfg.nodes_of(i, 'true' if isnot != neg else 'false')
+                            guards_.append(i)
+            users = [st for st in walk_local(lp) if isinstance(st, ast.stmt) and not isinstance(st, (ast.If, ast.For, ast.AsyncFor, ast.While, ast.With, ast.AsyncWith, ast.Try)) and any(isinstance(x, ast.Name) and x.id == bvar for x in ast.walk(st))]
+            if guards_ and users and all(rcfg.set_dominates(good, x) for st in users for x in rcfg.nodes_of(st, 'stmt')):
                 ok = True
     ctx.check(ok, 'C06.R3', f'{func_label(fn)}|restore-needs-private-part', loc(fn, fn.node), 'restore uses only snapshots whose private data decrypted (`data is not None` filter)', 'restore no longer filters out snapshots whose private data is None (another key)')
     # list_files
@@ -315,7 +361,7 @@ def r4_tag_gate(ctx):
         st = enclosing_stmt(a)
         # reached only with a verified tag, or (not encrypted) through the false edge of an `if encrypted:` that holds the test
         g = list(tag_pass)
-        g += [x for n in enc_ifs if not any(n is t for t, _c in tag_found) for x in _false_nodes(cfg, n)]
+        g += [x for n in enc_ifs if not any(n is t for t, _c in tag_found) for x in _unencrypted_edges(cfg, n)]
         ok = bool(tag_found) and all(cfg.set_dominates(g, x) for x in cfg.nodes_of(st, 'stmt'))
         ctx.check(
             ok,
